@@ -582,32 +582,36 @@ def encoder_default(ck: Check, prog: Program, cls_q: str, must_cover: Iterable[s
     for m in cfg.stmt_nodes():
         if m.kind != 'stmt' or not isinstance(m.ast, ast.Return):
             continue
-        v = m.ast.value
-        pos: List[str] = []
-        for g in guard_edges(cfg, m):
-            c = g.src.ast
-            if isinstance(c, ast.Call) and dotted(c.func) == 'isinstance' and len(c.args) == 2 and dotted(c.args[0]) == obj and g.label == 'T':
-                for alt in fl.alts(g.src, c.args[1]):
-                    tp = alt.expr
-                    for e in (tp.elts if isinstance(tp, ast.Tuple) else tp.elts if isinstance(tp, ast.List) else [tp]):
-                        ent = p2.resolve(d.module, e)
-                        pos.append(ent.qualname if isinstance(ent, ClassInfo) else ent if isinstance(ent, str) else norm(e))
-        if pos:
-            if is_delegation(v):
-                continue
-            vals = [al.expr for al in fl.alts(m, v)] if v is not None else []
-            ok = v is not None and vals and all(mentions_obj(x) and not (isinstance(x, ast.Constant)) for x in vals)
-            if ok:
-                covered += pos
-            else:
-                problems.append((m.line, f'branch for {pos[0].rsplit(".", 1)[-1]} returns `{norm(v) if v is not None else "None"}`',
-                                 f'`{norm(m.ast)}` is what {short(d.qualname)} hands to the JSON encoder for a {pos[0].rsplit(".", 1)[-1]} object: it is not '
-                                 f'built from the object, so the object is serialised as that value (null) and what it carried is lost'))
-        elif not is_delegation(v):
-            problems.append((m.line, f'`{norm(m.ast)[:60]}` outside an isinstance branch',
-                             f'`{norm(m.ast)}` in {short(d.qualname)} is reached for objects that passed no `isinstance({obj}, …)` test: whatever is '
-                             f'not known must be handed to `super().default({obj})` (which raises TypeError); here every such object takes this '
-                             f'return instead (AttributeError on it, or a wrong value on the wire)'))
+        outer = [(g.src.ast, g.label == 'T', g.src) for g in guard_edges(cfg, m)]
+        # a return of a conditional expression is one return per arm, each under the arm's condition
+        arms = [(al.expr, [(c, p_, m) for c, p_ in (al.guards or [])]) for al in fl.alts(m, m.ast.value)] if m.ast.value is not None else [(None, [])]
+        for v, inner in arms:
+            pos: List[str] = []
+            for c, pol, at in outer + inner:
+                while isinstance(c, ast.UnaryOp) and isinstance(c.op, ast.Not):
+                    c, pol = c.operand, not pol
+                if isinstance(c, ast.Call) and dotted(c.func) == 'isinstance' and len(c.args) == 2 and dotted(c.args[0]) == obj and pol:
+                    for alt in fl.alts(at, c.args[1]):
+                        tp = alt.expr
+                        for e in (tp.elts if isinstance(tp, (ast.Tuple, ast.List)) else [tp]):
+                            ent = p2.resolve(d.module, e)
+                            pos.append(ent.qualname if isinstance(ent, ClassInfo) else ent if isinstance(ent, str) else norm(e))
+            if pos:
+                if is_delegation(v):
+                    continue
+                ok = v is not None and mentions_obj(v) and not isinstance(v, ast.Constant)
+                if ok:
+                    covered += pos
+                else:
+                    problems.append((m.line, f'branch for {pos[0].rsplit(".", 1)[-1]} returns `{norm(v) if v is not None else "None"}`',
+                                     f'`{norm(v) if v is not None else "None"}` is what {short(d.qualname)} hands to the JSON encoder for a '
+                                     f'{pos[0].rsplit(".", 1)[-1]} object: it is not built from the object, so the object is serialised as that value '
+                                     f'(null) and what it carried is lost'))
+            elif not is_delegation(v):
+                problems.append((m.line, f'`return {norm(v)[:50] if v is not None else ""}` outside an isinstance branch',
+                                 f'`{norm(v) if v is not None else "return"}` in {short(d.qualname)} is returned for objects that passed no '
+                                 f'`isinstance({obj}, …)` test: whatever is not known must be handed to `super().default({obj})` (which raises TypeError); '
+                                 f'here every such object takes this return instead (AttributeError on it, or a wrong value on the wire)'))
     falls = cfg.exit.id in cfg.reachable(cfg.entry, avoid_nodes=[m for m in cfg.stmt_nodes() if isinstance(m.ast, (ast.Return, ast.Raise))],
                                         edge_ok=lambda e: e.label != 'exc')
     if falls:
